@@ -45,8 +45,21 @@ def w_fuzz_job(profile, quick_runs, thorough_runs, workers_quick=4, workers_thor
     return dict(name="W-libFuzzer", engine_tag="Wfuzz", target="w_fuzz", instances=instances, cmd=cmd, replay=replay,
                 timeout=dict(quick=900, thorough=5400))
 
-def W(quick, thorough, gcc_thorough=None, fuzz=None):
+def w_enum_job(which, quick, thorough):
+    """bounded exhaustive scope through the same interpreter/oracle. quick/thorough: (shards, extra args)"""
+    def instances(tier):
+        sh, extra = quick if tier == "quick" else thorough
+        return [dict(label="enum-%s#%d" % (which, i), shard=i, nshards=sh, extra=extra) for i in range(sh)]
+    def cmd(exe, prop, tier, seed, inst, out, rundir, excluded):
+        return [exe, "--prop", prop, "--enum", which, "--shard", "%d/%d" % (inst["shard"], inst["nshards"]), "--faildir", rundir, "--out", out] + inst["extra"], {}
+    def replay(exe, prop, path):
+        return [exe, "--prop", prop, "--replay", path, "--quiet"]
+    return dict(name="W-enum-" + which, engine_tag="Wenum", target="w_rc", instances=instances, cmd=cmd, replay=replay, timeout=dict(quick=900, thorough=5400))
+
+def W(quick, thorough, gcc_thorough=None, fuzz=None, enum=None):
     jobs = [w_job("w_rc", quick, thorough)]
+    if enum:
+        jobs.append(w_enum_job(*enum))
     if fuzz:
         jobs.append(w_fuzz_job(*fuzz))
     if gcc_thorough:
@@ -86,17 +99,17 @@ PROPS = {
     "C02": dict(jobs=W([("overlap", Q, 50), ("seq", Q, 50)], [("overlap", 40000, 90, 8), ("seq", 40000, 90, 6), ("all", 40000, 90, 2)], [("overlap", 20000, 70, 2)]),
                 rule=W_RULE + "non-trivial (C02): some call has >= 2 matching live candidates (labels: tie on cost, newer blocked yields to older, multi-sequence handler, handler not newest).",
                 assumptions=W_ASSUME),
-    "C03": dict(jobs=W([("plain", Q, 50), ("overlap", Q, 50)], [("plain", 40000, 90, 8), ("overlap", 40000, 90, 8)], [("plain", 20000, 70, 2)]),
-                rule=W_RULE + "non-trivial (C03): is_satisfied/is_saturated of some expectation changes value at least once during the history (a bound is crossed).",
+    "C03": dict(jobs=W([("plain", Q, 50), ("overlap", Q, 50)], [("plain", 40000, 90, 8), ("overlap", 40000, 90, 8)], [("plain", 20000, 70, 2)], enum=("c03", (1, []), (1, []))),
+                rule=W_RULE + "Plus the exhaustive C03 scope (all bounds x spellings x stackings x call counts). non-trivial (C03): is_satisfied/is_saturated of some expectation changes value at least once during the history (a bound is crossed).",
                 assumptions=W_ASSUME),
     "C04": dict(jobs=W([("plain", Q, 50), ("teardown", Q, 50)], [("plain", 40000, 90, 8), ("teardown", 40000, 90, 8)], [("teardown", 20000, 70, 2)]),
                 rule=W_RULE + "non-trivial (C04): an unsatisfied expectation whose mock died or was moved before its release, or that was named in an earlier report, reaches its end of life.",
                 assumptions=W_ASSUME + ["an expectation named only in a sequence report may or may not report its shortfall later (accepted both ways)"]),
-    "C05": dict(jobs=W([("seq", Q, 50), ("all", Q, 50)], [("seq", 40000, 90, 10), ("all", 40000, 90, 4), ("death", 40000, 90, 2)], [("seq", 20000, 70, 2)], fuzz=("seq", 4000, 120000)),
-                rule=W_RULE + "non-trivial (C05): some step is ineligible when attempted, or a handler passes over pending (optional/satisfied) predecessors.",
+    "C05": dict(jobs=W([("seq", Q, 50), ("all", Q, 50)], [("seq", 40000, 90, 10), ("all", 40000, 90, 4), ("death", 40000, 90, 2)], [("seq", 20000, 70, 2)], fuzz=("seq", 4000, 120000), enum=("c05", (6, ["--N", "3", "--K", "1", "--len", "3"]), (16, ["--N", "3", "--K", "2", "--len", "5"]))),
+                rule=W_RULE + "Plus the exhaustive small scope (N<=3 participants, K sequences, all memberships/bounds/strings). non-trivial (C05): some step is ineligible when attempted, or a handler passes over pending (optional/satisfied) predecessors.",
                 assumptions=W_ASSUME),
-    "C06": dict(jobs=W([("seq", Q, 50), ("teardown", Q, 50)], [("seq", 40000, 90, 8), ("teardown", 40000, 90, 8)], [("seq", 20000, 70, 2)]),
-                rule=W_RULE + "non-trivial (C06): is_completed() changes value at least twice, or a sequence object is destroyed with >= 1 pending participant.",
+    "C06": dict(jobs=W([("seq", Q, 50), ("teardown", Q, 50)], [("seq", 40000, 90, 8), ("teardown", 40000, 90, 8)], [("seq", 20000, 70, 2)], enum=("c05", (6, ["--N", "3", "--K", "1", "--len", "3"]), (16, ["--N", "3", "--K", "2", "--len", "4"]))),
+                rule=W_RULE + "Plus the exhaustive small sequence scope shared with C05. non-trivial (C06): is_completed() changes value at least twice, or a sequence object is destroyed with >= 1 pending participant.",
                 assumptions=W_ASSUME + ["a destruction monitor whose object died but that is not yet released may or may not be listed at sequence teardown"]),
     "C07": dict(jobs=W([("forbid", Q, 50), ("overlap", Q, 50)], [("forbid", 40000, 90, 10), ("overlap", 40000, 90, 6)], [("forbid", 20000, 70, 2)]),
                 rule=W_RULE + "non-trivial (C07): a forbidding expectation is hit at least once and some other call is accepted in the same history.",
